@@ -296,6 +296,12 @@ def _len_by_match(b, pos_l):
                     if len(dd) == 1 and dd[0]["rv"]["k"] == "use" and dd[0]["rv"]["op"].get("k") in ("copy", "move") and dd[0]["rv"]["op"]["place"]["l"] == L \
                             and [e for e in dd[0]["rv"]["op"]["place"]["p"] if isinstance(e, dict) and "f" in e]:
                         some = [d]
+            if not some:
+                # the Some arm computes something from the payload (`state.len().map_or(pos, |len| len.max(pos))`, inlined): the one
+                # definition that depends on the looked-up length
+                dep = [d for d in ds if L in b.slice_rv(d["bb"], {"lhs": d["lhs"], "rv": d["rv"]}).locals]
+                if len(dep) == 1:
+                    some = dep
             none = [d for d in ds if d not in some]
             if len(some) != 1 or len(none) != 1:
                 continue
@@ -307,7 +313,9 @@ def _len_by_match(b, pos_l):
             sd = some[0]
             ssl = b.slice_rv(sd["bb"], {"lhs": sd["lhs"], "rv": sd["rv"]}, through_calls=False)
             why_some = None
-            if [a for a in ssl.atoms if a[0] in ("binop", "unop")] or [k for k in ssl.calls if k.dest["l"] != L]:
+            ssl_deep = b.slice_rv(sd["bb"], {"lhs": sd["lhs"], "rv": sd["rv"]})
+            if [a for a in ssl.atoms if a[0] in ("binop", "unop")] or [k for k in ssl.calls if k.dest["l"] != L] or \
+                    [k for k in ssl_deep.calls if k.dest["l"] != L and not k.matches(r"state::ProgressState::len", r"std::ops::Deref::deref")]:
                 why_some = "the Some arm modifies the length"
             return c, l, why_some, why_none
     return None
